@@ -281,4 +281,179 @@ def evalOr {α : Type} (ρ : α → Bool) : Tree α → Bool
   | .leaf a => ρ a
   | .node l r => evalOr ρ l || evalOr ρ r
 
+/-! ## (a) `data/nat.py` `norm_full`
+
+The theory has `mult_comm` and the binary-numeral theorems (`has_binary_thms()`), i.e. the full
+mode.  Each `Conv` class is the tree function below (what its chain of rewrites computes on
+the shapes it is applied to; other shapes are returned unchanged here, the Python raises).
+Atoms are whatever `norm_full` leaves alone (variables, applications, subtraction, powers ...): the
+harness numbers them by their rank under `term_ord.fast_compare` together with the constant
+`one` (`dest_monomial` of a numeral) and hands over each atom's `size()`; `fastCmp` is then
+`fast_compare` on atoms and left-nested products of atoms: size first (`a * b` has size
+`|a| + |b| + 3`), then the function parts `times a` / `times a'`, then the arguments.
+(A product and a single atom of the *same* size would be compared through the atom's inner
+structure, which this model does not have: the correspondence stream avoids such atoms.) -/
+
+inductive NExp where
+  | atom (id : Nat) (size : Nat)
+  | num (n : Nat)
+  | add (a b : NExp)
+  | mul (a b : NExp)
+  | suc (a : NExp)
+  deriving Repr, DecidableEq, Inhabited
+
+namespace NExp
+
+def size : NExp → Nat
+  | atom _ s => s
+  | num _ => 1
+  | add a b => a.size + b.size + 3
+  | mul a b => a.size + b.size + 3
+  | suc a => a.size + 2
+
+def isNum : NExp → Bool
+  | num _ => true
+  | _ => false
+
+end NExp
+
+open NExp
+
+def ordThen (a b : Ordering) : Ordering :=
+  match a with
+  | .eq => b
+  | o => o
+
+/-- `fast_compare` on atoms / `one` / left-nested products; `one` is the rank of the constant `one`. -/
+def fastCmp (one : Nat) : NExp → NExp → Ordering
+  | .mul x y, .mul x' y' =>
+    if (NExp.mul x y).size ≠ (NExp.mul x' y').size then compare (NExp.mul x y).size (NExp.mul x' y').size
+    else ordThen (compare x.size x'.size) (ordThen (fastCmp one x x') (fastCmp one y y'))
+  | t1, t2 =>
+    if t1.size ≠ t2.size then compare t1.size t2.size
+    else
+      let rank : NExp → Option Nat := fun t =>
+        match t with
+        | .atom i _ => some i
+        | .num _ => some one
+        | _ => none
+      match rank t1, rank t2 with
+      | some i, some j => compare i j
+      | _, _ => .lt
+
+/-- `nat.compare_atom`: numbers last, two numbers are "equal". -/
+def compareAtom (one : Nat) (t1 t2 : NExp) : Ordering :=
+  if t1.isNum && t2.isNum then .eq
+  else if t1.isNum then .gt
+  else if t2.isNum then .lt
+  else fastCmp one t1 t2
+
+/-- `dest_monomial`: the body of a monomial (`one` for a numeral). -/
+def destMonomial : NExp → NExp
+  | .mul b (.num _) => b
+  | .num _ => .num 1
+  | t => t
+
+def compareMonomial (one : Nat) (t1 t2 : NExp) : Ordering :=
+  fastCmp one (destMonomial t1) (destMonomial t2)
+
+/-- `to_coeff_form` as (body, coefficient): `a * n`, `1 * n`, `a * 1`. -/
+def coeffForm : NExp → NExp × Nat
+  | .mul b (.num c) => (b, c)
+  | .num n => (.num 1, n)
+  | t => (t, 1)
+
+/-- `from_coeff_form` on `x * c`. -/
+def fromCoeff (x : NExp) (c : Nat) : NExp :=
+  if c = 1 then x
+  else if x = .num 1 then .num c
+  else .mul x (.num c)
+
+/-- `combine_monomial` on `m1 + m2` (same body). -/
+def combineMonomial (m1 m2 : NExp) : NExp :=
+  let (b1, c1) := coeffForm m1
+  let (_, c2) := coeffForm m2
+  fromCoeff b1 (c1 + c2)
+
+/-- `norm_add_monomial` on `p + m`. -/
+def insM (one : Nat) : NExp → NExp → NExp
+  | .add p1 m1, m =>
+    if m = .num 0 then .add p1 m1
+    else
+      match compareMonomial one m1 m with
+      | .gt => .add (insM one p1 m) m1
+      | .eq => .add p1 (combineMonomial m1 m)
+      | .lt => .add (.add p1 m1) m
+  | p, m =>
+    if p = .num 0 then m
+    else if m = .num 0 then p
+    else
+      match compareMonomial one p m with
+      | .gt => .add m p
+      | .eq => combineMonomial p m
+      | .lt => .add p m
+
+/-- `norm_add_polynomial` on `p + q`. -/
+def addP (one : Nat) (p : NExp) : NExp → NExp
+  | .add q1 m => insM one (addP one p q1) m
+  | q => insM one p q
+
+/-- `norm_mult_atom` on `p * a`. -/
+def insA (one : Nat) : NExp → NExp → NExp
+  | .mul p1 a1, a =>
+    if a = .num 0 then .num 0
+    else if a = .num 1 then .mul p1 a1
+    else
+      match compareAtom one a1 a with
+      | .gt => .mul (insA one p1 a) a1
+      | .eq =>
+        match a1, a with
+        | .num n1, .num n => .mul p1 (.num (n1 * n))
+        | _, _ => .mul (.mul p1 a1) a
+      | .lt => .mul (.mul p1 a1) a
+  | p, a =>
+    if p = .num 0 then .num 0
+    else if a = .num 0 then .num 0
+    else if p = .num 1 then a
+    else if a = .num 1 then p
+    else
+      match compareAtom one p a with
+      | .gt => .mul a p
+      | .eq =>
+        match p, a with
+        | .num n1, .num n => .num (n1 * n)
+        | _, _ => .mul p a
+      | .lt => .mul p a
+
+/-- `norm_mult_monomial` on `p * q`. -/
+def mulM (one : Nat) (p : NExp) : NExp → NExp
+  | .mul q1 a => insA one (mulM one p q1) a
+  | q => insA one p q
+
+/-- `norm_mult_poly_monomial` on `p * m`. -/
+def polyMono (one : Nat) : NExp → NExp → NExp
+  | .add p1 m1, m => addP one (polyMono one p1 m) (mulM one m1 m)
+  | p, m => mulM one p m
+
+/-- `norm_mult_polynomial` on `p * q`. -/
+def mulP (one : Nat) (p : NExp) : NExp → NExp
+  | .add q1 m => addP one (mulP one p q1) (polyMono one p m)
+  | q => polyMono one p q
+
+/-- `norm_full`. -/
+def norm (one : Nat) : NExp → NExp
+  | .atom i s => .atom i s
+  | .num n => .num n
+  | .suc x => addP one (norm one x) (.num 1)
+  | .add a b => addP one (norm one a) (norm one b)
+  | .mul a b => mulP one (norm one a) (norm one b)
+
+/-- Value in ℕ under a valuation of the atoms. -/
+def eval (ρ : Nat → Nat) : NExp → Nat
+  | .atom i _ => ρ i
+  | .num n => n
+  | .add a b => eval ρ a + eval ρ b
+  | .mul a b => eval ρ a * eval ρ b
+  | .suc a => eval ρ a + 1
+
 end Holpy.C10
